@@ -116,7 +116,7 @@ def check_case(cfg, cp, cl):
                             if not close(val, 1.0 if n in reach_any else 0.0):
                                 return False
     for delta in cfg["deltas"]:
-        for pt in cfg["types"][:2]:
+        for pt in cfg["types"][:cfg.get("sliding_types", 3)]:
             sres = al.sliding_delta_conformity(g, delta, ALPHAS, ['lab'], path_type=pt)
             exp = {}
             for t in tids:
@@ -137,10 +137,15 @@ def check_case(cfg, cp, cl):
 def body(cfg, pres, labs):
     N, ids = cfg["N"], cfg["ids"]
     nb = N * (N - 1) // 2 * len(ids)
-    cp = [sbool(b) for b in list(pres)[:nb]]          # decide every bit under tracing ...
-    cl = [sbool(b) for b in list(labs)[:N]]
-    for i, fixed in enumerate(cfg.get("fixlabs") or []):
-        assume(cl[i] == fixed)
+    cl = []
+    for i in range(N):                                 # decide every bit under tracing ...
+        fl = cfg.get("fixlabs") or []
+        if i < len(fl):
+            assume(labs[i] == fl[i])
+            cl.append(fl[i])
+        else:
+            cl.append(sbool(labs[i]))
+    cp = [sbool(b) for b in list(pres)[:nb]]
     if sum(cp) >= 4:
         reach("dense")
     if len(set(cl)) == 1:
@@ -157,8 +162,8 @@ for N, ids, tier in ((3, [0, 1, 2], "quick"), (3, [0, 1, 2, 3], "thorough"), (4,
             parts = [([s], [0, 1, 2]) for s in ids]
         for pi, (st, dl) in enumerate(parts):
             REG.add("conf_N%d_ids%s_l%d%d_p%d" % (N, "".join(map(str, ids)), fl[0], fl[1], pi), T_conf, body,
-                    cfg=dict(N=N, ids=ids, fixlabs=list(fl), starts=st, deltas=dl, types=TYPES),
-                    tier=tier if (tier == "thorough" or pi < 2 or fl == (True, False)) else "thorough", timeout=1500 if tier == "quick" else 3000,
+                    cfg=dict(N=N, ids=ids, fixlabs=list(fl), starts=st, deltas=dl, types=TYPES, sliding_types=3 if tier == "quick" else 5),
+                    tier=tier if (tier == "thorough" or (fl[0] and pi < 3)) else "thorough", timeout=1500 if tier == "quick" else 3000,
                     tags=["dense"] + (["homogeneous"] if fl[0] == fl[1] else []), twins=1,
                     bounds="every DynGraph on %d nodes over snapshot ids %s (one presence bit per pair and id: exhaustive), every 2-valued "
                            "labelling with the first two labels fixed to %s; start in %s, delta in %s, alphas %s, all five path types" %
